@@ -224,3 +224,45 @@ theorem flushSer_writes (s : State) (oi : Nat) (o : Obj) (force : Bool) (e : Ent
     simp [State.store, saveToResource, State.writeFile, State.delEntry]
 
 end SC.B
+
+namespace SC.B
+open SC
+
+theorem find_map_replace (cells : List (Nat × T)) (c : Nat) (t : T) (h : cells.any (·.1 = c) = true) :
+    (cells.map (fun p => if p.1 = c then (c, t) else p)).find? (·.1 = c) = some (c, t) := by
+  induction cells with
+  | nil => simp at h
+  | cons q qs ih =>
+    simp only [List.map_cons, List.find?_cons]
+    by_cases hq : q.1 = c
+    · simp [hq]
+    · have hq' : decide ((if q.1 = c then (c, t) else q).1 = c) = false := by simp [hq]
+      simp only [hq']
+      apply ih
+      simpa [hq] using h
+
+theorem cellData_setCell (s : State) (c : Nat) (t : T) : (s.setCell c t).cellData c = t := by
+  unfold State.setCell State.cellData
+  simp only
+  by_cases h : s.cells.any (·.1 = c) = true
+  · simp only [h, if_true, find_map_replace s.cells c t h]
+    rfl
+  · simp only [h]
+    have hnone : s.cells.find? (·.1 = c) = none := by
+      rw [List.find?_eq_none]
+      intro x hx hxc
+      exact h (List.any_eq_true.mpr ⟨x, hx, hxc⟩)
+    simp [List.find?_append, hnone]
+
+/-- the memory of the merging object after `mergeInto` is the merge result -/
+theorem mergeInto_root (s : State) (oi : Nat) (o : Obj) (d : J) :
+    (mergeInto s oi o d).1.root o = (updNode s.fam (s.root o) d s.next).val := by
+  unfold mergeInto State.root
+  simp only
+  have h1 : ∀ (x : State) (a b c : Nat), (x.own a b c).cellData o.cell = x.cellData o.cell := by
+    intro x a b c; unfold State.own; split <;> rfl
+  have h2 : ∀ (x : State) (a : Nat) (ts : List T), (x.addDetached a ts).cellData o.cell = x.cellData o.cell :=
+    fun _ _ _ => rfl
+  rw [h2, h1, cellData_setCell]
+
+end SC.B
